@@ -234,6 +234,20 @@ t11 :- blocks, findall(Y, (s(Y), ( Y == c -> assertz(s(f)) ; true )), L1), finda
 t12 :- blocks, findall(Y, (s(Y), ( Y == a -> retract(s(d)) ; true )), L1), findall(Y, s(Y), L2), show(L1-L2).
 t13 :- blocks, findall(Y, (s(Y), ( Y == b -> asserta(s(z)), assertz(s(y)) ; true )), L1), findall(Y, s(Y), L2),
        show(L1-L2).
+% clauses whose heads have no indexable argument (a plain dynamic_else chain); the update is the first one
+% since the call started, lands before / at / after the clause the call is at
+:- dynamic(v/1).
+vset :- retractall(v(_)), assertz((v(X) :- X = 1)), assertz((v(X) :- X = 2)), assertz((v(X) :- X = 3)).
+t14 :- vset, findall(X, (v(X), ( X =:= 1 -> assertz((v(Y) :- Y = 4)) ; true )), L1), findall(X, v(X), L2), show(L1-L2).
+t15 :- vset, findall(X, (v(X), ( X =:= 2 -> assertz((v(Y) :- Y = 4)) ; true )), L1), findall(X, v(X), L2), show(L1-L2).
+t16 :- vset, findall(X, (v(X), ( X =:= 3 -> assertz((v(Y) :- Y = 4)) ; true )), L1), findall(X, v(X), L2), show(L1-L2).
+t17 :- vset, findall(X, (v(X), ( X =:= 1 -> retract((v(Y) :- Y = 3)) ; true )), L1), findall(X, v(X), L2), show(L1-L2).
+t18 :- vset, findall(X, (v(X), ( X =:= 1 -> retract((v(Y) :- Y = 2)) ; true )), L1), findall(X, v(X), L2), show(L1-L2).
+t19 :- vset, findall(X, (v(X), ( X =:= 2 -> asserta((v(Y) :- Y = 0)) ; true )), L1), findall(X, v(X), L2), show(L1-L2).
+t20 :- retractall(v(_)), assertz((v(X) :- X = 1)),
+       findall(X, (v(X), ( X =:= 1 -> assertz((v(Y) :- Y = 2)) ; true )), L1), findall(X, v(X), L2), show(L1-L2).
+t21 :- retractall(q(_)), assertz(q(1)),
+       findall(X, (q(X), ( X =:= 1 -> assertz(q(2)) ; true )), L1), findall(X, q(X), L2), show(L1-L2).
 """
 
 
@@ -242,7 +256,10 @@ def replay_logical_update_view(viol):
              ("t4", "[1,3,4]-[a-1,b-2,a-4]"), ("t5", "[2]"), ("t6", "[1,2,3]"), ("t7", "[1,2,3]"),
              ("t8", "[1,2,3]"), ("t9", "[1,2]"),
              ("t10", "[a,b,v,c,d]-[a,b,v,c,d,e]"), ("t11", "[a,b,v,c,d]-[a,b,v,c,d,f]"),
-             ("t12", "[a,b,v,c,d]-[a,b,v,c]"), ("t13", "[a,b,v,c,d]-[z,a,b,v,c,d,y]")]
+             ("t12", "[a,b,v,c,d]-[a,b,v,c]"), ("t13", "[a,b,v,c,d]-[z,a,b,v,c,d,y]"),
+             ("t14", "[1,2,3]-[1,2,3,4]"), ("t15", "[1,2,3]-[1,2,3,4]"), ("t16", "[1,2,3]-[1,2,3,4]"),
+             ("t17", "[1,2,3]-[1,2]"), ("t18", "[1,2,3]-[1,3]"), ("t19", "[1,2,3]-[0,1,2,3]"),
+             ("t20", "[1]-[1,2]"), ("t21", "[1]-[1,2]")]
     return run_cases(LUV_PROGRAM, cases, {"model": viol}, "C09", "logical_update_view")
 
 
@@ -906,6 +923,12 @@ nv([], _).
 nv(['$VAR'(N)|Vs], N) :- N1 is N + 1, nv(Vs, N1).
 explode([], []).
 explode([C|Cs], [C|Ds]) :- explode(Cs, Ds).
+% head unification that builds a structure in write mode around a variable seen earlier in the head
+hp(X, f(X)).
+hq(X, g(a, [X|_])).
+oc(V, G, R) :- set_prolog_flag(occurs_check, V),
+    catch(( G, set_prolog_flag(occurs_check, false), R = unified ; set_prolog_flag(occurs_check, false), R = no ),
+          error(E, _), ( set_prolog_flag(occurs_check, false), R = err(E) )).
 """
 
 
@@ -963,6 +986,14 @@ def replay_unification(viol):
         ("partial_string(\"abc\", Ls, T), ( unify_with_occurs_check(Ls, T) -> show(unified) ; show(no) )", "no"),
         ("( unify_with_occurs_check(X, f(X)) -> show(unified) ; show(no) )", "no"),
         ("( unify_with_occurs_check(f(X), f(a)) -> show(yes(X)) ; show(no) )", "yes(a)"),
+        # the occurs_check flag applies to head unification as well
+        ("oc(true, hp(A, A), R), show(R)", "no"), ("oc(true, hq(A, A), R), show(R)", "no"),
+        ("oc(error, hp(A, A), R), show(R)", "err(representation_error(term))"),
+        ("oc(error, hq(A, A), R), show(R)", "err(representation_error(term))"),
+        ("oc(true, (hp(A, B), B == f(A)), R), show(R)", "unified"), ("oc(true, (hp(A, B), A = B), R), show(R)", "no"),
+        ("oc(true, A = f(A), R), show(R)", "no"), ("oc(false, hp(A, A), R), show(R)", "unified"),
+        ("( unify_with_occurs_check(T, [a,b,c|T]) -> show(unified) ; show(no) )", "no"),
+        ("( unify_with_occurs_check(T, g([a,b|T])) -> show(unified) ; show(no) )", "no"),
         # strings with multi-byte characters against explicit list cells
         ("explode(\"a\u00f1b\", L), u(\"a\u00f1b\", L, R), ( R = yes(_) -> show(yes) ; show(no) )", "yes"),
         ("L = [X,Y,Z], \"a\u00f1b\" = L, atom_codes(Y, [C]), show(C)", "241"),
